@@ -144,14 +144,26 @@ def scen_fromstr(ctx, M):
         d = ctx.str('d%d' % i, k, DIG)
         parts.append(d)
         vals.append(sstr.parse_int(d) if ctx.sym else int(d))
-    suf = ctx.choice('suffix', SUFFIXES)
-    text = parts[0]
-    for d in parts[1:]:
-        text = cat(text, '.', d)
-    if suf:
-        text = cat(text, suf, ctx.str('sd', 1, DIG))
     junk = ctx.p.get('junk')
-    if junk:
+    if junk == 'middle':
+        # a pre-release marker on a component that is not the last one is
+        # not a suffix of the version: that component is non-numeric
+        suf = ctx.choice('suffix', SUFFIXES[1:])
+        at = ctx.choice('at', list(range(n - 1)))
+        sd = ctx.str('sd', 1, DIG)
+        text = None
+        for i, d in enumerate(parts):
+            if i == at:
+                d = cat(d, suf, sd)
+            text = d if text is None else cat(text, '.', d)
+    else:
+        suf = ctx.choice('suffix', SUFFIXES)
+        text = parts[0]
+        for d in parts[1:]:
+            text = cat(text, '.', d)
+        if suf:
+            text = cat(text, suf, ctx.str('sd', 1, DIG))
+    if junk and junk != 'middle':
         bad = ctx.str('j', 1, frozenset(b'0123456789xa-. '))
         text = cat(text, '.', bad) if junk == 'component' else \
             cat(bad, text)
@@ -170,6 +182,10 @@ def scen_fromstr(ctx, M):
         ctx.check('C17-suffix-ignored', out == 'ok' and
                   h.veq(r == want, True))
         ctx.goal('parsed')
+    elif junk == 'middle':
+        ctx.check('C17-marker-on-inner-component-valueerror',
+                  out == 'ValueError')
+        ctx.goal('rejected')
     else:
         # a component / prefix that python's int() rejects makes the whole
         # version invalid; one it accepts is just another number
